@@ -30,4 +30,7 @@ if [ ! -f $BIN ] || [ "$(cat $STAMP 2>/dev/null)" != "$rt_hash-$src_hash-r1" ]; 
   mv $BIN.tmp.$$ $BIN
   echo "$rt_hash-$src_hash-r1" > $STAMP
 fi
+# the object cache grows with every variation of /repo that is built: keep what was used during the last two days
+touch -c $OBJ $RT
+find $ROOT/build/cache -type f -mtime +2 -delete 2>/dev/null || true
 echo $BIN
